@@ -177,3 +177,11 @@ From XV Require Gen.T9text Proofs.Text_C01.
 Theorem C01_hand_modelled_functions_read_as_validated : Text_C01.all_frozen.
 Proof. exact Text_C01.all_frozen_holds. Qed.
 Print Assumptions C01_hand_modelled_functions_read_as_validated.
+
+(* N is the number of samples that were decomposed: with the length of the sample axis before entirely missing samples are dropped (a > b) every explained
+   variance comes out strictly smaller, and the ratios of a full decomposition against the correctly normalised total variance sum to b / a < 1 *)
+From XV Require Proofs.C01_N.
+Theorem C01_explained_variance_with_the_wrong_N_refuted : forall s2 a b tot : R, (0 < s2 -> 0 < tot -> 0 < b -> b < a ->
+  s2 / a < s2 / b /\ (tot * b / a) / tot < 1)%R.
+Proof. exact (fun s2 a b tot Hs Ht Hb Hab => conj (C01_N.expvar_with_the_longer_axis_is_smaller s2 a b Hs Hb Hab) (C01_N.ratios_with_the_longer_axis_fall_short tot a b Ht Hb Hab)). Qed.
+Print Assumptions C01_explained_variance_with_the_wrong_N_refuted.
